@@ -9,6 +9,7 @@ CONSTANTS
   MaxInjects = 0
   MaxExpires = 0
   MaxLosses = 0
+  MaxLinkChanges = 0
 INVARIANT Report
 POSTCONDITION AllConsumed
 CHECK_DEADLOCK FALSE
